@@ -3,10 +3,14 @@ import FqModel.Bits
 import FqModel.Reasm
 /-! driver for C19 — TCP streams and IPv4 datagrams are reassembled exactly
 
-  case line (written by harness/cmd/c19, see kase.go / main.go there):
-    cap <fmt> <links> (C <ipA> <portA> <ipB> <portB> <isnA> <isnB> <dataA> <dataB>)+ P <pkt>* [@note]*
-        TAB  fq <format> S (K <6 client fields> <6 server fields>)* (R <datagram>)* T=<same|diff…> X <call>* flush <call>*
+  case line (written by harness/cmd/c19, grammar in kase.go / main.go there):
+    cap <fmt> <links> (C <ipA> <portA> <ipB> <portB> <isnA> <isnB> <dataA> <dataB>)+ P (<pkt> | N | N=<links>)* [@note]*
+        TAB  fq <format> B=<facts> (S (K <6 client fields> <6 server fields>)* (R <datagram>)*)* T=<same|diff…> X (<call>* flush)(N <call>* flush)*
     linktable TAB <linktype>=<method>…      (the dispatch table of format/pcap/shared.go, dumped from the binary)
+
+  Sections (pcapng): the packets are grouped as fq forms sections (`fqSectioning`, `fqInterfaceLink` of the model:
+  the file's sections, each with its own interface table); steps 1-4 below run per section, each with its own reference state and its own recorded calls.
+  Addresses are IPv4 or IPv6 (`ipString` models net.IP.String()); only IPv4 is fragmented.
 
   What is computed for a `cap` line
     1. the abstract packet list is replayed: IPv4 fragments are put together by the REFERENCE `defragGroup`
@@ -25,17 +29,14 @@ import FqModel.Reasm
        equal fq's report field by field (DIVERGE otherwise); the recorded calls must satisfy the interface
        assumption (`flushDiscipline`, in-order delivery of sent bytes) and the harness must have seen the traced
        Decoder end in the state fq reported (T=same);
-    5. known findings: the predicate is evaluated twice — in the reference world (every captured segment counts) and
-       in the world of the fq model (segments rejected by
-       `Accept` = TCPSimpleFSM.CheckState, `fsmCheck`, never reach the assembler).  A PROPFAIL is reported as KNOWN
-       only if it is explained exactly by
-         (`defrag-length` — a reassembled datagram dropped by fq's completion test — was excused until fix
-                         8dc84a5a; `acceptReassembled` now models the fixed test and a drop is a PROPFAIL)
-         `fsm-reorder`   the transliterated CheckState rejects >= 1 segment carrying data/SYN/FIN and fq's report
-                         satisfies the predicate on the remaining segments;
+    5. the predicate is evaluated twice — in the reference world (every captured segment counts) and in the world of
+       the fq model (payload-free segments rejected by `Accept`, `acceptSegment`, never reach the assembler; this
+       world feeds the model replay and the interface check).  A PROPFAIL is reported as KNOWN only for
          `seq-wrap`      every failure lies in a direction whose sequence numbers cross 2^32 and whose data segments do
                          not arrive exactly once and in order (gopacket's Sequence.Difference is off by one across
                          the wrap); for such a direction the interface check on the recorded calls is skipped too.
+       Fixed in /repo and no longer excused: defrag-length (8dc84a5a), fsm-reorder (1ef5f83b), pcapng-shb-section and
+       pcapng-section-length (501642c1).
     6. `linktable`: the dispatch table dumped from the binary under test must equal `linkToDecodeFn`.
 -/
 open FqModel FqModel.Proto FqModel.Reasm
@@ -114,8 +115,6 @@ structure Case where
   secs : List (List String × List Pkt)    -- the file's sections: link types of the interfaces, packets
 
 def Case.ng (k : Case) : Bool := k.fmt.startsWith "pcapng"
-def Case.lengthGiven (k : Case) : Bool := !k.ng || (k.fmt.splitOn "_len").length > 1
-
 /-- the sections as fq forms them (`fqSectioning`), every packet with its real and its fq link type
     (`fqInterfaceLink`); packet i of a file section is on interface i mod (number of interfaces) -/
 def Case.fqSections (k : Case) : List (List FPkt) :=
@@ -124,8 +123,8 @@ def Case.fqSections (k : Case) : List (List FPkt) :=
     let (ls, ps) := k.secs[si]!
     (List.range ps.length).map fun i =>
       let j := i % ls.length
-      (⟨ps[i]!, ls[j]!, fqInterfaceLink k.lengthGiven links si j⟩ : FPkt)
-  fqSectioning k.lengthGiven fileSecs
+      (⟨ps[i]!, ls[j]!, fqInterfaceLink links si j⟩ : FPkt)
+  fqSectioning fileSecs
 
 def parseDir (w : String) : Option Nat := if w == "a" then some 0 else if w == "b" then some 1 else none
 
@@ -271,7 +270,7 @@ structure Replay where
   evsFq : Array Ev := #[]      -- fq model: packets the dispatch table / interface table do not hand to the right decoder are lost
   done : Array Done := #[]
   unseen : Nat := 0            -- packets on an interface whose link type the dispatch table does not serve as specified
-  misdecoded : Nat := 0        -- packets for which fq uses another interface's link type (known finding pcapng-shb-section)
+  misdecoded : Nat := 0        -- packets for which the model of fq's interface table gives another link type (none since 501642c1)
 
 def replay (conns : Array CConn) (pkts : List FPkt) : Replay := Id.run do
   let mut r : Replay := {}
@@ -308,8 +307,8 @@ def replay (conns : Array CConn) (pkts : List FPkt) : Replay := Id.run do
           if acc && served then r := { r with evsFq := r.evsFq.push ev }
   return r
 
-/-- `Accept` (= TCPSimpleFSM.CheckState) over the TCP segments that reach the assembler: the accepted ones, and
-    the number of rejected segments that carry data or SYN / FIN -/
+/-- `Accept` (`acceptSegment`) over the TCP segments that reach the assembler: the accepted ones, and the number of
+    rejected (payload-free) SYN / FIN segments -/
 def fsmFilter (evs : Array Ev) : Array Ev × Nat := Id.run do
   let mut states : List (Nat × Nat × Fsm) := []     -- connection, direction of its first packet, state
   let mut out : Array Ev := #[]
@@ -318,10 +317,10 @@ def fsmFilter (evs : Array Ev) : Array Ev × Nat := Id.run do
     let (first, t) := match states.find? (fun s => s.1 == e.c) with
       | some (_, f, t) => (f, t)
       | none => (e.d, {})
-    let r := fsmCheck t e.syn e.ack e.fin false (e.d != first)
+    let r := acceptSegment t e.syn e.ack e.fin false (e.d != first) (!e.data.isEmpty)
     states := (e.c, first, r.1) :: states.filter (fun s => s.1 != e.c)
     if r.2 then out := out.push e
-    else if !e.data.isEmpty || e.syn || e.fin then rejected := rejected + 1
+    else if e.syn || e.fin then rejected := rejected + 1
   return (out, rejected)
 
 /-! ### reference per direction -/
@@ -629,24 +628,21 @@ def stepSection (k : Case) (pkts : List FPkt) (o : ObsSec) (calls : Array Call) 
 def Findings.merge (a b : Findings) : Findings :=
   ⟨a.propfail ++ b.propfail, a.wrapOnly && b.wrapOnly, a.diverge ++ b.diverge⟩
 
-/-- known finding `pcapng-section-length`: a given section_length and a section whose last block is not longer
-    than its section header block (`sectionEndsEarly`) -/
-def endsEarlyClass (k : Case) (facts : List (Nat × Nat)) : Bool :=
-  k.ng && k.lengthGiven && facts.any fun (shb, last) => sectionEndsEarly shb last
-
 def stepCap (k : Case) (o : Obs) : String := Id.run do
   let secs := k.fqSections
-  let early := endsEarlyClass k o.facts
   let mut refF : Findings := {}
   let mut fqF : Findings := {}
   let mut dv : List String := []
-  let mut dropped := 0
-  let mut fsmRejected := 0
-  let mut misdecoded := 0
   if o.format != (if k.ng then "pcapng" else "pcap") then refF := refF.fail s!"format {o.format}" false
   if o.traced != "same" then dv := dv ++ [s!"traced-decoder-state-{o.traced}"]
   if o.secs.size != secs.length || o.traceSecs.size != secs.length then
     dv := dv ++ [s!"sections: fq reports {o.secs.size}, traced {o.traceSecs.size}, model {secs.length}"]
+    -- fq reports ONE section for a file with several: is anything lost or invented when the file is read as
+    -- one capture?  (the harness then traced one decoder over all packets)
+    if o.secs.size == 1 && o.traceSecs.size == 1 then
+      let r := stepSection k secs.flatten o.secs[0]! o.traceSecs[0]!
+      refF := refF.merge r.refF
+      fqF := fqF.merge r.fqF
   else
     for i in [0:secs.length] do
       let r := stepSection k secs[i]! o.secs[i]! o.traceSecs[i]!
@@ -654,30 +650,15 @@ def stepCap (k : Case) (o : Obs) : String := Id.run do
       refF := refF.merge { r.refF with propfail := tag r.refF.propfail }
       fqF := fqF.merge { r.fqF with propfail := tag r.fqF.propfail }
       dv := dv ++ tag r.dv
-      dropped := dropped + r.dropped
-      fsmRejected := fsmRejected + r.fsmRejected
-      misdecoded := misdecoded + r.misdecoded
   let suffix := match dv with
     | [] => ""
     | w :: _ => s!" ;DIVERGE model={w}"
   if refF.propfail.isEmpty then
     match dv with
     | [] => return "OK"
-    | w :: _ =>
-      if early then return s!"KNOWN pcapng-section-length a section's last block is not longer than its section header block ({w})"
-      return s!"DIVERGE model={w}"
-  if early then
-    return s!"KNOWN pcapng-section-length a section's last block is not longer than its section header block ({refF.propfail.head!})"
-  -- known findings fsm-reorder / pcapng-shb-section: the failures disappear when the segments `Accept` rejects and
-  -- the packets decoded with another section's link type are taken out.
-  -- (a datagram the model of packet() does not accept is NOT excused: `defrag-length` is fixed)
-  if (fsmRejected > 0 || misdecoded > 0) && dropped == 0 then
-    if fqF.propfail.isEmpty then
-      if misdecoded > 0 then
-        return s!"KNOWN pcapng-shb-section {misdecoded} packet(s) of a later section decoded with the link type of an earlier section's interface ({refF.propfail.head!}){suffix}"
-      return s!"KNOWN fsm-reorder {fsmRejected} segment(s) with data/SYN/FIN rejected by Accept (TCPSimpleFSM) ({refF.propfail.head!}){suffix}"
-    else if fqF.wrapOnly then
-      return s!"KNOWN seq-wrap {fqF.propfail.head!}{suffix}"
+    | w :: _ => return s!"DIVERGE model={w}"
+  -- the only class still excused: seq-wrap (gopacket).  fsm-reorder, pcapng-shb-section, pcapng-section-length and
+  -- defrag-length are fixed in /repo: what they produced is a PROPFAIL again.
   if refF.wrapOnly then
     return s!"KNOWN seq-wrap {refF.propfail.head!}{suffix}"
   return s!"PROPFAIL {refF.propfail.head!}{suffix}"
@@ -696,12 +677,7 @@ def stepC19 (op obs : String) : String :=
   | some k =>
     if obs.startsWith "err:" then
       match words obs with
-      | [e, facts] =>
-        match parseFacts facts with
-        | some fs =>
-          if endsEarlyClass k fs then s!"KNOWN pcapng-section-length fq fails ({e}): a section's last block is not longer than its section header block"
-          else s!"PROPFAIL fq-failed {e}"
-        | none => "BADOP obs"
+      | [e, facts] => if (parseFacts facts).isSome then s!"PROPFAIL fq-failed {e}" else "BADOP obs"
       | _ => "BADOP obs"
     else match parseObs k obs with
     | none => "BADOP obs"
